@@ -158,11 +158,14 @@ CHECKS["C04"] = dict(
         "Lifetimes/Spec.v states Rust's outlives relation declaratively (declared + implied bounds, definition requirements as a least fixpoint "
         "through nested fields). C04_borrow_edges_exact: for every accepted method and return lifetime the reported edges are exactly the "
         "parameters / struct slots mentioning a lifetime forced to outlive it; with C04_all_longer_is_closure (DFS = closure, fuel always "
-        "suffices), C04_env_is_closure_of_written_bounds, C04_definition_bounds_are_recorded, C04_outlives_iff_recorded, C04_borrow_map_keys/entry. "
+        "suffices), C04_env_is_closure_of_written_bounds, C04_definition_bounds_are_recorded, C04_outlives_iff_recorded, C04_borrow_map_keys/entry, "
+        "C04_struct_accessor_exact (JS/Dart _fieldsForLifetime accessors yield exactly the fields carrying the lifetime, any nesting), "
+        "C04_spec_executable (the specification has an executable form, evaluated against rustc in Coq). "
         "Tied to the code per run: generated bridges go through the real TypeContext::from_syn and borrowing_param_visitor; acceptance and the "
         "literal borrow_map are compared with the model in Coq, the edge sets with an independent python reading of Rust's rules, that reading "
         "with rustc itself ((r,x) coercion probes), and the js/dart/kotlin/nanobind output is parsed for edge arrays, constructor arguments, "
-        "append arrays and struct accessors.",
+        "append arrays and struct accessors (literally against the model), and the generated JS is executed under node --expose-gc: no input the "
+        "result may borrow from is collected while the result is alive.",
    note="Outside the statement: bounds rustc infers from an opaque's private fields, derivations through 'static (counted as "
         "rustc_pairs_static_bridged), plain-object struct arguments in JS. Backend emission is checked on generated code, not modelled. "
         "Known finding: a borrowed Option<slice> parameter panics.",
